@@ -143,7 +143,7 @@ func genJSRequestArgs(r *RNG, forceGood bool) string {
 	}
 	kv := b2i(known)
 	if known && !forceGood && r.Chance(1, 12) { // a KEK / label store that fails
-		kv = int64(2 + r.Intn(3))
+		kv = int64(2 + r.Intn(4)) // 5: the device-key store fails
 	}
 	return fmt.Sprintf("%s %d %s %s %d s%s s%s %d %s %s %s %d %d %d %d %s %s %d %s", kind, kv, hx(nwk[:]), hx(app[:]), nonce, sender, receiver, r.U32(),
 		hx(b), hx(devEUI[:]), hx(devAddr[:]), b2i(optNeg), rx2dr, rx1off, rxDelay, hx(cfList), hx(nsKEK), b2i(asLabel), hx(asKEK))
